@@ -342,8 +342,11 @@ def write_replay(prop, body):
 
 
 def write_evidence(prop, ev):
-    os.makedirs(os.path.join(ROOT, "evidence"), exist_ok=True)
-    with open(os.path.join(ROOT, "evidence", prop + ".json"), "w") as f:
+    # development runs against a scratch copy (VERIF_REPO, used by tools/seed_eval.py and tools/drill.sh)
+    # must not overwrite the evidence of /repo
+    evdir = os.path.join(ROOT, "evidence") if REPO == "/repo" else os.path.join(HX, "evidence")
+    os.makedirs(evdir, exist_ok=True)
+    with open(os.path.join(evdir, prop + ".json"), "w") as f:
         json.dump(ev, f, indent=1, sort_keys=True)
 
 
